@@ -28,6 +28,7 @@ type C04Scenario struct {
 	NAcc     int      `json:"n_acc"`
 	PreSeed  bool     `json:"pre_seed"` // pairing already in the store (skip pair-setup)
 	Others   int      `json:"others"`   // other controllers already stored
+	Stale    bool     `json:"stale,omitempty"` // the store already holds the controller's identifier with another key (it pairs again after a reset of its own)
 	Retry    bool     `json:"retry"`    // with WrongPin: the same controller then enters the right code on the same connection
 	Pipeline bool     `json:"pipeline"` // requests are pipelined: the head of the next request is sent before the previous response is read
 	Reqs     []C04Req `json:"reqs"`
@@ -55,6 +56,7 @@ func genC04(rt *rapid.T) interface{} {
 	sc.NAcc = rapid.IntRange(1, 6).Draw(rt, "nacc")
 	sc.PreSeed = sc.WrongPin == "" && rapid.IntRange(0, 2).Draw(rt, "preseed") == 0
 	sc.Others = rapid.IntRange(0, 2).Draw(rt, "others")
+	sc.Stale = !sc.PreSeed && rapid.IntRange(0, 3).Draw(rt, "stale") == 0
 	n := rapid.IntRange(0, 5).Draw(rt, "nreq")
 	for i := 0; i < n; i++ {
 		k := rapid.SampledFrom([]string{"acc", "get", "put"}).Draw(rt, "kind")
@@ -81,6 +83,10 @@ func runC04(t *testing.T, sci interface{}) *Outcome {
 		}
 		if sc.PreSeed {
 			w.SeedPairing(sc.CtlID, kp)
+		}
+		if sc.Stale {
+			w.Sim.Count("probe.identifier_already_stored_with_another_key")
+			w.SeedPairing(sc.CtlID, w.Keypair())
 		}
 		accs := BuildAccessories(sc.NAcc, "")
 		if err := w.NewTransport(hc.Config{Pin: sc.Pin}, accs); err != nil {
@@ -313,7 +319,11 @@ func runC04(t *testing.T, sci interface{}) *Outcome {
 				if err != nil || !bytes.Equal(e.PublicKey, kp.Pub) || e.Name != sc.CtlID {
 					violate("stored-entity", "stored entity for %q is not (id, LTPK): err=%v name=%q", sc.CtlID, err, e.Name)
 				}
-				if !sc.PreSeed && len(after) != len(before)+1 {
+				wantMore := 1
+				if sc.Stale {
+					wantMore = 0
+				}
+				if !sc.PreSeed && len(after) != len(before)+wantMore {
 					violate("stored-count", "pair-setup changed the entity count %d -> %d", len(before), len(after))
 				}
 			}
